@@ -78,7 +78,12 @@ fn sample(variant: Variant, mat: &[f64], vars: &[usize], nvars: usize, loops: bo
     }
 }
 
+/// `tolwit` mode: judge the literal property also where entries are closer than the library's tolerance (finding F23)
+static STRICT: std::sync::atomic::AtomicBool = std::sync::atomic::AtomicBool::new(false);
+
 fn run_case(variant: Variant, mat: &[f64], vars: &[usize], do_sample: bool) {
+    let strict = STRICT.load(std::sync::atomic::Ordering::Relaxed);
+    let tag = if strict { " [F23: entries closer than f64::EPSILON are treated as equal]" } else { "" };
     let nvars = vars.iter().cloned().max().map(|m| m + 1).unwrap_or(1).max(1);
     let input = format!("ctor {} {} {}", variant.name(), rats(mat), list(vars));
     let built = build(variant, mat, vars, nvars, false);
@@ -130,6 +135,9 @@ fn run_case(variant: Variant, mat: &[f64], vars: &[usize], do_sample: bool) {
                     if !len_ok { "matrix size does not match variable list" } else { "negative weight" }
                 ));
             }
+            // entries closer than the library's absolute tolerance (f64::EPSILON) without being equal: the
+            // classification there is decided by the tolerance, which only the model comparison judges
+            let well_sep = strict || shifted.iter().all(|a| shifted.iter().all(|b| a == b || (a - b).abs() >= 4.0 * f64::EPSILON));
             let pats = patterns(nv);
             let mut table = vec![];
             let at_doc = |ins: &[bool], outs: &[bool]| -> f64 {
@@ -157,13 +165,13 @@ fn run_case(variant: Variant, mat: &[f64], vars: &[usize], do_sample: bool) {
                             table.push(rat(v));
                             if len_ok && !has_neg {
                                 let want = at_doc(ins, outs);
-                                if v != want {
-                                    fail(format!("at({},{}) = {} but documented entry is {}", bits(ins), bits(outs), v, want));
+                                if v != want && well_sep {
+                                    fail(format!("at({},{}) = {} but documented entry is {}{}", bits(ins), bits(outs), v, want, tag));
                                 }
-                                if *first.get_or_insert(v) != v {
+                                if *first.get_or_insert(want) != want {
                                     all_eq = false;
                                 }
-                                if ins == outs && *firstd.get_or_insert(v) != v {
+                                if ins == outs && *firstd.get_or_insert(want) != want {
                                     diag_eq = false;
                                 }
                                 let fi: Vec<bool> = ins.iter().map(|b| !b).collect();
@@ -199,11 +207,11 @@ fn run_case(variant: Variant, mat: &[f64], vars: &[usize], do_sample: bool) {
                 Ok(b) => (*b as u8).to_string(),
                 Err(_) => "P".to_string(),
             };
-            if len_ok && !has_neg {
-                // classification oracle (inputs are dyadic and well separated, so exact equality is the property)
+            if len_ok && !has_neg && well_sep {
+                // classification oracle (entries are equal or well separated, so exact equality is the property)
                 let all_zero_diag_table = variant.is_diag() && shifted.iter().all(|x| *x == 0.0);
                 if !all_zero_diag_table && i.is_constant() != (all_eq && (!variant.is_diag() || nv == 0)) {
-                    fail(format!("is_constant() = {} but matrix constant = {}", i.is_constant(), all_eq));
+                    fail(format!("is_constant() = {} but matrix constant = {}{}", i.is_constant(), all_eq, tag));
                 }
                 if i.is_constant_diag() != diag_eq {
                     fail(format!("is_constant_diag() = {} but diagonal constant = {}", i.is_constant_diag(), diag_eq));
@@ -264,6 +272,13 @@ fn main() {
                 run_case(v, &mat, &vars, true);
             }
         }
+        return;
+    }
+    if a.mode == "tolwit" {
+        // finding F23 (Lean: Qmc.C16.tolerance_witness): the literal property at entries closer than f64::EPSILON
+        STRICT.store(true, std::sync::atomic::Ordering::Relaxed);
+        let below_eps = f64::from_bits(f64::EPSILON.to_bits() - 1);
+        run_case(Variant::New, &[0.0, below_eps, 0.0, 0.0], &[0], false);
         return;
     }
     // 1. every length 0..=70 x variable-list length 0..=4 x constructor, with 0/1 and dyadic entries
@@ -349,6 +364,62 @@ fn main() {
         run_case(v, &mat, &shuffled_vars(&mut g, nv), k % 4 == 0);
     }
     // 4. get_power_of_two / get_mat_var_size are private; they are observed through case set 1.
+    // 5. tiny, subnormal and tolerance-boundary entries: a weight in (-EPSILON, 0) is still a negative weight;
+    //    |a - b| = EPSILON is "different", the next float below is "equal". Only matrices whose pairwise
+    //    differences are exact in binary64 are used, so the rational model and the f64 code must agree
+    //    entry for entry (no offset arithmetic on special values: New, Diag, and NewOff with the special
+    //    values off the diagonal).
+    let e = f64::EPSILON;
+    let prev = |x: f64| f64::from_bits(x.to_bits() - 1);
+    let next = |x: f64| f64::from_bits(x.to_bits() + 1);
+    let pos: Vec<f64> = vec![5e-324, f64::MIN_POSITIVE, 1e-300, 1e-17, e / 2.0, prev(e), e, next(e), 2.0 * e,
+                             1.0 - e / 2.0, 1.0 - e, 1.0 + e, 1.0, 0.0];
+    let neg: Vec<f64> = vec![-5e-324, -f64::MIN_POSITIVE, -1e-300, -1e-17, 0.3 - 0.1 - 0.2, -e / 2.0, -prev(e), -e,
+                             -next(e), -2.0 * e];
+    let exact_sub = |a: f64, b: f64| -> bool {
+        // TwoSum on a + (-b): error term zero <=> the f64 difference is the real difference
+        let nb = -b;
+        let s = a + nb;
+        let a1 = s - nb;
+        let b1 = s - a1;
+        (a - a1) + (nb - b1) == 0.0 && s.is_finite()
+    };
+    let n_tiny = if a.thorough { 4000 } else { 500 };
+    let mut tiny_neg = 0usize;
+    let mut tiny_boundary = 0usize;
+    for k in 0..n_tiny {
+        let v = *g.pick(&[Variant::New, Variant::NewOff, Variant::Diag]);
+        let nv = if v.is_diag() { g.range(1, 3) as usize } else { g.range(1, 2) as usize };
+        let len = if v.is_diag() { 1usize << nv } else { 1usize << (2 * nv) };
+        let tn = 1usize << nv;
+        let base = *g.pick(&[0.0, 1.0, 0.5]);
+        let flat = g.coin();
+        let mut mat: Vec<f64> = (0..len).map(|_| if flat { base } else { g.dyadic(0, 2, 4) }).collect();
+        let on_diag = |i: usize| !v.is_diag() && i / tn == i % tn;
+        let nspec = g.range(1, 3) as usize;
+        let want_neg = g.chance(1, 2);
+        for j in 0..nspec {
+            let i = g.below(len as u64) as usize;
+            if v == Variant::NewOff && on_diag(i) {
+                continue;
+            }
+            let x = if want_neg && j == 0 { *g.pick(&neg) } else { *g.pick(&pos) };
+            let old = mat[i];
+            mat[i] = x;
+            if !mat.iter().all(|a| mat.iter().all(|b| exact_sub(*a, *b))) {
+                mat[i] = old;
+            }
+        }
+        if mat.iter().any(|x| *x < 0.0) {
+            tiny_neg += 1;
+        }
+        if mat.iter().any(|a| mat.iter().any(|b| a != b && (a - b).abs() < 4.0 * e)) {
+            tiny_boundary += 1;
+        }
+        run_case(v, &mat, &shuffled_vars(&mut g, nv), k % 5 == 0);
+    }
+    stat("tiny_stream_with_negative_entry", tiny_neg);
+    stat("tiny_stream_with_tolerance_boundary_pair", tiny_boundary);
 }
 
 fn shuffled_vars(g: &mut SplitMix64, nv: usize) -> Vec<usize> {
